@@ -161,10 +161,20 @@ def parse_tess_impl(res):
     """`X exact OK NC n c.. NF m f.. CONN k ..`  or  `X exact PANIC loc msg`"""
     t = Tok(res)
     t.expect('X')
-    out = {'exact': t.int()}
+    ex = t.int()
+    out = parse_voronoi_tok(t)
+    out['exact'] = ex
+    return out
+
+
+def parse_voronoi_tok(t):
+    """`OK NC n c.. NF m f.. CONN k ..` or `PANIC ...` from a token stream"""
+    out = {}
+    start = t.i
     st = t.next()
     if st == 'PANIC':
         out['panic'] = ' '.join(t.t[t.i:])
+        t.i = len(t.t)
         return out
     t.expect('NC')
     n = t.int()
@@ -199,7 +209,33 @@ def parse_tess_impl(res):
     out['conn'] = [t.int() for _ in range(k)]
     out['cells'] = cells
     out['faces'] = faces
+    out['tokens'] = t.t[start:t.i]
     return out
+
+
+def parse_model_vor(t):
+    """model structure `NC n {off cnt k nbrs} NF m {left right shifted} CONN k ...`"""
+    t.expect('NC')
+    n = t.int()
+    cells = []
+    for _ in range(n):
+        off, cnt, k = t.int(), t.int(), t.int()
+        cells.append((off, cnt, [t.int() for _ in range(k)]))
+    t.expect('NF')
+    m = t.int()
+    faces = []
+    for _ in range(m):
+        faces.append((t.int(), t.optint(), t.next() == '1'))
+    t.expect('CONN')
+    k = t.int()
+    conn = [t.int() for _ in range(k)]
+    return {'cells': cells, 'faces': faces, 'conn': conn}
+
+
+def impl_structure(v):
+    return {'cells': [(c.off, c.cnt, c.nbrs) for c in v['cells']],
+            'faces': [(f.left, f.right, f.shift is not None) for f in v['faces']],
+            'conn': v['conn']}
 
 
 def parse_cells_impl(res):
